@@ -15,7 +15,7 @@ from vf.props import c02
 PROPERTY = "C09"
 LEVEL = "model_checking"
 ASSUMPTIONS = ["one suspension per resolver; callback-level scheduling of one asyncio loop"]
-BUDGET_S = {"quick": 120, "thorough": 1800}
+BUDGET_S = {"quick": 600, "thorough": 1800}
 MAX_I = {"quick": 1, "thorough": 2}
 CAP = {"quick": 80000, "thorough": 600000}
 
